@@ -3574,3 +3574,675 @@ MUTANTS += [
     _stress_mut_b("stress-b6-predicate-chunks-304", "R19.1", "stress-b6-", "or code in {204, 304}", "or code in {204}"),
     _stress_mut_b("stress-b11-missing-header-reads-as-chunked", "R19.4", "stress-b11-", '        except KeyError:\n            transfer_encoding = ""\n', '        except KeyError:\n            transfer_encoding = "chunked"\n'),
 ]
+
+
+# =====================================================================
+# third detection round: R19.6 (the authority of an absolute-form request target is HTTP_HOST on return; nothing of the URL
+# is written over the Host header otherwise) and the end-flag latch of R19.3 (nothing is read once the flag is set).
+# Own variants first (mutants and neutral twins of the Host override in different spellings), then the 15 fresh
+# refactorings of make_environ / readinto written without knowledge of the checker, each shape with a mutant.
+_D3_HOST = '        if request_url.scheme and request_url.netloc:\n            environ["HTTP_HOST"] = request_url.netloc\n'
+_D3_SPLIT = '        request_url = urlsplit(self.path)\n'
+_D3_LOOP = '        for key, value in self.headers.items():\n            if "_" in key:\n'
+_D3_TE = '        if environ.get("HTTP_TRANSFER_ENCODING", "").strip().lower() == "chunked":\n'
+_D3_RET = '        return environ\n\n    def run_wsgi(self) -> None:\n'
+_D3_STORE = '            environ[key] = value\n'
+_D3_LIT_END = '            "SERVER_PROTOCOL": self.request_version,\n        }\n'
+
+
+def _d3m(name, *edits):
+    return {"name": name, "expect": "R19.6", "edits": list(edits)}
+
+
+def _d3t(name, *edits):
+    return {"name": name, "edits": list(edits)}
+
+
+_D3_OWN = [
+ _d3m("d3-m-setdefault", (S, _D3_HOST, '        if request_url.scheme and request_url.netloc:\n            environ.setdefault("HTTP_HOST", request_url.netloc)\n')),
+ _d3m("d3-m-not-in-guard", (S, _D3_HOST, '        if request_url.scheme and request_url.netloc and "HTTP_HOST" not in environ:\n            environ["HTTP_HOST"] = request_url.netloc\n')),
+ _d3m("d3-m-nested-not-in", (S, _D3_HOST, '        if request_url.scheme and request_url.netloc:\n            if "HTTP_HOST" not in environ.keys():\n                environ["HTTP_HOST"] = request_url.netloc\n')),
+ _d3m("d3-m-before-loop", (S, _D3_HOST, ''), (S, _D3_LOOP, _D3_HOST + '\n' + _D3_LOOP)),
+ _d3m("d3-m-get-or", (S, _D3_HOST, '        if request_url.scheme and request_url.netloc:\n            environ["HTTP_HOST"] = environ.get("HTTP_HOST") or request_url.netloc\n')),
+ _d3m("d3-m-no-scheme-test", (S, _D3_HOST, '        if request_url.netloc:\n            environ["HTTP_HOST"] = request_url.netloc\n')),
+ _d3m("d3-m-removed", (S, _D3_HOST, '')),
+ _d3m("d3-m-inverted", (S, _D3_HOST, '        if not (request_url.scheme and request_url.netloc):\n            environ["HTTP_HOST"] = request_url.netloc\n')),
+ _d3m("d3-m-elif-te", (S, _D3_HOST, ''), (S, '            environ["wsgi.input"] = DechunkedInput(environ["wsgi.input"])\n', '            environ["wsgi.input"] = DechunkedInput(environ["wsgi.input"])\n        elif request_url.scheme and request_url.netloc:\n            environ["HTTP_HOST"] = request_url.netloc\n')),
+ _d3m("d3-m-in-literal", (S, _D3_HOST, ''), (S, _D3_LIT_END, '            "SERVER_PROTOCOL": self.request_version,\n        }\n        if request_url.scheme and request_url.netloc:\n            environ.update({"HTTP_HOST": request_url.netloc})\n')),
+ _d3m("d3-m-update-reversed", (S, _D3_HOST, '        if request_url.scheme and request_url.netloc:\n            environ = {"HTTP_HOST": request_url.netloc, **environ}\n')),
+ _d3m("d3-m-or-instead-of-and", (S, _D3_HOST, '        if request_url.scheme or request_url.netloc:\n            environ["HTTP_HOST"] = request_url.netloc\n')),
+ _d3m("d3-m-local-flag-setdefault", (S, _D3_SPLIT, _D3_SPLIT + '        is_absolute = bool(request_url.scheme and request_url.netloc)\n'), (S, _D3_HOST, '        if is_absolute:\n            environ.setdefault("HTTP_HOST", request_url.netloc)\n')),
+ _d3m("d3-m-stores-path", (S, _D3_HOST, '        if request_url.scheme and request_url.netloc:\n            environ["HTTP_HOST"] = request_url.path\n')),
+ _d3t("d3-t-local-flag", (S, _D3_SPLIT, _D3_SPLIT + '        is_absolute = bool(request_url.scheme and request_url.netloc)\n'), (S, _D3_HOST, '        if is_absolute:\n            environ["HTTP_HOST"] = request_url.netloc\n')),
+ _d3t("d3-t-nested-ifs", (S, _D3_HOST, '        if request_url.scheme:\n            if request_url.netloc:\n                environ["HTTP_HOST"] = request_url.netloc\n')),
+ _d3t("d3-t-update-literal", (S, _D3_HOST, '        if request_url.scheme and request_url.netloc:\n            environ.update({"HTTP_HOST": request_url.netloc})\n')),
+ _d3t("d3-t-update-kw", (S, _D3_HOST, '        if request_url.scheme and request_url.netloc:\n            environ.update(HTTP_HOST=request_url.netloc)\n')),
+ _d3t("d3-t-ior", (S, _D3_HOST, '        if request_url.scheme and request_url.netloc:\n            environ |= {"HTTP_HOST": request_url.netloc}\n')),
+ _d3t("d3-t-unpack", (S, _D3_HOST, '        scheme, netloc, _path, _query, _frag = request_url\n        if scheme and netloc:\n            environ["HTTP_HOST"] = netloc\n')),
+ _d3t("d3-t-after-try", (S, _D3_HOST, ''), (S, _D3_RET, _D3_HOST + '\n' + _D3_RET)),
+ _d3t("d3-t-before-te", (S, _D3_HOST, ''), (S, _D3_TE, _D3_HOST + '\n' + _D3_TE)),
+ _d3t("d3-t-condexp", (S, _D3_HOST, '        authority = request_url.netloc if request_url.scheme and request_url.netloc else None\n        if authority is not None:\n            environ["HTTP_HOST"] = authority\n')),
+ _d3t("d3-t-condexp-truthy", (S, _D3_HOST, '        authority = request_url.scheme and request_url.netloc\n        if authority:\n            environ["HTTP_HOST"] = authority\n')),
+ _d3t("d3-t-flipped", (S, _D3_HOST, '        if not request_url.scheme or not request_url.netloc:\n            pass\n        else:\n            environ["HTTP_HOST"] = request_url.netloc\n')),
+ _d3t("d3-t-local-const", (S, _D3_HOST, '        host_key = "HTTP_HOST"\n        if request_url.scheme and request_url.netloc:\n            environ[host_key] = request_url.netloc\n')),
+ _d3t("d3-t-module-const", (S, 'class WSGIRequestHandler(BaseHTTPRequestHandler):\n', '_HOST_KEY = "HTTP_HOST"\n\n\nclass WSGIRequestHandler(BaseHTTPRequestHandler):\n'), (S, _D3_HOST, '        if request_url.scheme and request_url.netloc:\n            environ[_HOST_KEY] = request_url.netloc\n')),
+ _d3t("d3-t-method-helper", (S, _D3_HOST, '        self._apply_absolute_host(environ, request_url)\n'), (S, '    def run_wsgi(self) -> None:\n', '    def _apply_absolute_host(self, environ, request_url) -> None:\n        if request_url.scheme and request_url.netloc:\n            environ["HTTP_HOST"] = request_url.netloc\n\n    def run_wsgi(self) -> None:\n')),
+ _d3t("d3-t-method-helper-guard", (S, _D3_HOST, '        self._apply_absolute_host(environ, request_url)\n'), (S, '    def run_wsgi(self) -> None:\n', '    def _apply_absolute_host(self, env, url) -> None:\n        if not url.scheme or not url.netloc:\n            return\n        env["HTTP_HOST"] = url.netloc\n\n    def run_wsgi(self) -> None:\n')),
+ _d3t("d3-t-module-predicate", (S, 'class WSGIRequestHandler(BaseHTTPRequestHandler):\n', 'def _is_absolute_form(url) -> bool:\n    return bool(url.scheme and url.netloc)\n\n\nclass WSGIRequestHandler(BaseHTTPRequestHandler):\n'), (S, _D3_HOST, '        if _is_absolute_form(request_url):\n            environ["HTTP_HOST"] = request_url.netloc\n')),
+ _d3t("d3-t-module-helper-stmt", (S, 'class WSGIRequestHandler(BaseHTTPRequestHandler):\n', 'def _apply_absolute_host(environ, url) -> None:\n    if url.scheme and url.netloc:\n        environ["HTTP_HOST"] = url.netloc\n\n\nclass WSGIRequestHandler(BaseHTTPRequestHandler):\n'), (S, _D3_HOST, '        _apply_absolute_host(environ, request_url)\n')),
+ _d3t("d3-t-pop-then-set", (S, _D3_HOST, '        if request_url.scheme and request_url.netloc:\n            environ.pop("HTTP_HOST", None)\n            environ["HTTP_HOST"] = request_url.netloc\n')),
+ _d3t("d3-t-setdefault-after-pop", (S, _D3_HOST, '        if request_url.scheme and request_url.netloc:\n            environ.pop("HTTP_HOST", None)\n            environ.setdefault("HTTP_HOST", request_url.netloc)\n')),
+ _d3t("d3-t-rebuild", (S, _D3_HOST, '        if request_url.scheme and request_url.netloc:\n            environ = {**environ, "HTTP_HOST": request_url.netloc}\n')),
+ _d3t("d3-t-host-local", (S, _D3_HOST, '        netloc = request_url.netloc\n        if request_url.scheme and netloc:\n            environ["HTTP_HOST"] = netloc\n')),
+ _d3t("d3-t-loop-skips-host", (S, _D3_SPLIT, _D3_SPLIT + '        absolute = bool(request_url.scheme and request_url.netloc)\n'), (S, _D3_STORE, '            if absolute and key == "HTTP_HOST":\n                continue\n' + _D3_STORE), (S, _D3_HOST, '        if absolute:\n            environ["HTTP_HOST"] = request_url.netloc\n')),
+ _d3t("d3-t-loop-skips-host-literal", (S, _D3_SPLIT, _D3_SPLIT + '        absolute = bool(request_url.scheme and request_url.netloc)\n'), (S, _D3_STORE, '            if absolute and key == "HTTP_HOST":\n                continue\n' + _D3_STORE), (S, _D3_HOST, ''), (S, _D3_LIT_END, _D3_LIT_END + '        if absolute:\n            environ["HTTP_HOST"] = request_url.netloc\n')),
+]
+
+# the two variants in which the header loop itself leaves the Host header out for an absolute-form target are not neutral
+# for the loop clauses of R19.4 ("every other header is stored"), which judge one iteration without the URL: not listed
+_D3_OWN = [v_ for v_ in _D3_OWN if not v_["name"].startswith("d3-t-loop-skips-host")]
+MUTANTS += [v_ for v_ in _D3_OWN if "expect" in v_]
+TWINS += [v_ for v_ in _D3_OWN if "expect" not in v_]
+
+_DET3_TWINS = [{'edits': [('serving.py',
+             '        request_url = urlsplit(self.path)\n        url_scheme = "http" if self.server.ssl_context is None else "https"\n',
+             '        request_url = urlsplit(self.path)\n'
+             '        # An absolute-form request target carries its own authority.\n'
+             '        is_absolute = bool(request_url.scheme and request_url.netloc)\n'
+             '        url_scheme = "http" if self.server.ssl_context is None else "https"\n'),
+            ('serving.py',
+             '        # We\'re using "has a scheme" to indicate an absolute URL.\n'
+             '        if request_url.scheme and request_url.netloc:\n'
+             '            environ["HTTP_HOST"] = request_url.netloc\n',
+             '        # We\'re using "has a scheme" to indicate an absolute URL.\n'
+             '        if is_absolute:\n'
+             '            environ["HTTP_HOST"] = request_url.netloc\n')],
+  'name': 'det3-p1-make_environ: compute boolean local is_absolute right after urlsplit and test it at the Ho'},
+ {'edits': [('serving.py',
+             '    def make_environ(self) -> WSGIEnvironment:\n'
+             '        request_url = urlsplit(self.path)\n'
+             '        url_scheme = "http" if self.server.ssl_context is None else "https"\n',
+             '    def make_environ(self) -> WSGIEnvironment:\n'
+             '        scheme, netloc, path, query, _ = urlsplit(self.path)\n'
+             '        url_scheme = "http" if self.server.ssl_context is None else "https"\n'),
+            ('serving.py',
+             '        # netloc, prepend it to the path again.\n'
+             '        if not request_url.scheme and request_url.netloc:\n'
+             '            path_info = f"/{request_url.netloc}{request_url.path}"\n'
+             '        else:\n'
+             '            path_info = request_url.path\n'
+             '\n',
+             '        # netloc, prepend it to the path again.\n'
+             '        if not scheme and netloc:\n'
+             '            path_info = f"/{netloc}{path}"\n'
+             '        else:\n'
+             '            path_info = path\n'
+             '\n'),
+            ('serving.py',
+             '            "PATH_INFO": _wsgi_encoding_dance(path_info),\n'
+             '            "QUERY_STRING": _wsgi_encoding_dance(request_url.query),\n'
+             '            # Non-standard, added by mod_wsgi, uWSGI\n',
+             '            "PATH_INFO": _wsgi_encoding_dance(path_info),\n'
+             '            "QUERY_STRING": _wsgi_encoding_dance(query),\n'
+             '            # Non-standard, added by mod_wsgi, uWSGI\n'),
+            ('serving.py',
+             '        # We\'re using "has a scheme" to indicate an absolute URL.\n'
+             '        if request_url.scheme and request_url.netloc:\n'
+             '            environ["HTTP_HOST"] = request_url.netloc\n'
+             '\n',
+             '        # We\'re using "has a scheme" to indicate an absolute URL.\n'
+             '        if scheme and netloc:\n'
+             '            environ["HTTP_HOST"] = netloc\n'
+             '\n')],
+  'name': 'det3-p2-make_environ: unpack the urlsplit result into locals (scheme, netloc, path, query, _) and '},
+ {'edits': [('serving.py',
+             '\n        for key, value in self.headers.items():\n',
+             '\n'
+             '        # Collect the request headers separately, none of the keys above\n'
+             '        # start with HTTP_, so repeated headers only need to be looked up here.\n'
+             '        header_environ: dict[str, str] = {}\n'
+             '\n'
+             '        for key, value in self.headers.items():\n'),
+            ('serving.py',
+             '                key = f"HTTP_{key}"\n'
+             '                if key in environ:\n'
+             '                    value = f"{environ[key]},{value}"\n'
+             '            environ[key] = value\n'
+             '\n',
+             '                key = f"HTTP_{key}"\n'
+             '                if key in header_environ:\n'
+             '                    value = f"{header_environ[key]},{value}"\n'
+             '            header_environ[key] = value\n'
+             '\n'
+             '        environ.update(header_environ)\n'
+             '\n')],
+  'name': 'det3-p3-make_environ: collect the request headers in a local dict (header_environ) first, then mer'},
+ {'edits': [('serving.py',
+             '        # We\'re using "has a scheme" to indicate an absolute URL.\n'
+             '        if request_url.scheme and request_url.netloc:\n'
+             '            environ["HTTP_HOST"] = request_url.netloc\n'
+             '\n',
+             '        # We\'re using "has a scheme" to indicate an absolute URL.\n'
+             '        host = (\n'
+             '            request_url.netloc\n'
+             '            if request_url.scheme and request_url.netloc\n'
+             '            else environ.get("HTTP_HOST")\n'
+             '        )\n'
+             '\n'
+             '        if host is not None:\n'
+             '            environ["HTTP_HOST"] = host\n'
+             '\n')],
+  'name': 'det3-p4-make_environ: choose the host value with a conditional expression (netloc if absolute-form'},
+ {'edits': [('serving.py',
+             '    from cryptography.x509 import Certificate\n\n',
+             '    from cryptography.x509 import Certificate\n\n\n#: WSGI environ key holding the request\'s Host header.\nHOST_KEY = "HTTP_HOST"\n\n'),
+            ('serving.py',
+             '        # We\'re using "has a scheme" to indicate an absolute URL.\n'
+             '        if request_url.scheme and request_url.netloc:\n'
+             '            environ["HTTP_HOST"] = request_url.netloc\n'
+             '\n',
+             '        # We\'re using "has a scheme" to indicate an absolute URL.\n'
+             '        if request_url.scheme:\n'
+             '            # A scheme without an authority ("http:/path") says nothing\n'
+             '            # about the host, keep the Host header in that case.\n'
+             '            if request_url.netloc:\n'
+             '                environ[HOST_KEY] = request_url.netloc\n'
+             '\n')],
+  'name': 'det3-p5-make_environ: hoist module constant HOST_KEY = "HTTP_HOST" and split the absolute-form con'},
+ {'edits': [('serving.py',
+             '\n'
+             '        # Per RFC 2616, if the URL is absolute, use that as the host.\n'
+             '        # We\'re using "has a scheme" to indicate an absolute URL.\n'
+             '        if request_url.scheme and request_url.netloc:\n'
+             '            environ["HTTP_HOST"] = request_url.netloc\n'
+             '\n'
+             '        try:\n',
+             '\n        try:\n'),
+            ('serving.py',
+             '            # Not using TLS, the socket will not have getpeercert().\n            pass\n\n        return environ\n',
+             '            # Not using TLS, the socket will not have getpeercert().\n'
+             '            pass\n'
+             '\n'
+             '        # Per RFC 2616, if the URL is absolute, use that as the host.\n'
+             '        # We\'re using "has a scheme" to indicate an absolute URL.\n'
+             '        if request_url.scheme and request_url.netloc:\n'
+             '            environ["HTTP_HOST"] = request_url.netloc\n'
+             '\n'
+             '        return environ\n')],
+  'name': 'det3-p6-make_environ: reorder independent statements - move the absolute-form Host override after '},
+ {'edits': [('serving.py',
+             '\n'
+             '        for key, value in self.headers.items():\n'
+             '            if "_" in key:\n'
+             '                continue\n'
+             '\n'
+             '            key = key.upper().replace("-", "_")\n'
+             '            value = value.replace("\\r\\n", "")\n'
+             '            if key not in ("CONTENT_TYPE", "CONTENT_LENGTH"):\n'
+             '                key = f"HTTP_{key}"\n'
+             '                if key in environ:\n'
+             '                    value = f"{environ[key]},{value}"\n'
+             '            environ[key] = value\n'
+             '\n',
+             '\n        self._add_request_headers(environ)\n\n'),
+            ('serving.py',
+             '\n    def make_environ(self) -> WSGIEnvironment:\n',
+             '\n'
+             '    def _add_request_headers(self, environ: WSGIEnvironment) -> None:\n'
+             '        """Copy the request headers into ``environ`` using the CGI naming\n'
+             '        rules. Repeated headers are joined with a comma.\n'
+             '        """\n'
+             '        for key, value in self.headers.items():\n'
+             '            if "_" in key:\n'
+             '                continue\n'
+             '\n'
+             '            key = key.upper().replace("-", "_")\n'
+             '            value = value.replace("\\r\\n", "")\n'
+             '            if key not in ("CONTENT_TYPE", "CONTENT_LENGTH"):\n'
+             '                key = f"HTTP_{key}"\n'
+             '                if key in environ:\n'
+             '                    value = f"{environ[key]},{value}"\n'
+             '            environ[key] = value\n'
+             '\n'
+             '    def make_environ(self) -> WSGIEnvironment:\n')],
+  'name': 'det3-p7-make_environ: extract the header-copy loop into a private handler method _add_request_head'},
+ {'edits': [('serving.py',
+             '\nclass WSGIRequestHandler(BaseHTTPRequestHandler):\n',
+             '\n'
+             'def _use_target_authority(environ: WSGIEnvironment, scheme: str, netloc: str) -> None:\n'
+             '    """Per RFC 2616, if the request URL is absolute, use its authority as\n'
+             '    the host, ignoring any ``Host`` header.\n'
+             '\n'
+             '    We\'re using "has a scheme" to indicate an absolute URL.\n'
+             '    """\n'
+             '    if not scheme or not netloc:\n'
+             '        # origin-form, asterisk-form, or "//host/path" without a scheme\n'
+             '        return\n'
+             '\n'
+             '    environ["HTTP_HOST"] = netloc\n'
+             '\n'
+             '\n'
+             'class WSGIRequestHandler(BaseHTTPRequestHandler):\n'),
+            ('serving.py',
+             '\n'
+             '        # Per RFC 2616, if the URL is absolute, use that as the host.\n'
+             '        # We\'re using "has a scheme" to indicate an absolute URL.\n'
+             '        if request_url.scheme and request_url.netloc:\n'
+             '            environ["HTTP_HOST"] = request_url.netloc\n'
+             '\n',
+             '\n        _use_target_authority(environ, request_url.scheme, request_url.netloc)\n\n')],
+  'name': 'det3-p8-make_environ: extract the Host override into a module-level helper _use_target_authority(e'},
+ {'edits': [('serving.py',
+             '            "werkzeug.socket": self.connection,\n            "SERVER_SOFTWARE": self.server_version,\n',
+             '            "werkzeug.socket": self.connection,\n'
+             '        }\n'
+             '        # CGI-style request and server variables.\n'
+             '        environ |= {\n'
+             '            "SERVER_SOFTWARE": self.server_version,\n')],
+  'name': 'det3-p9-make_environ: build environ in two steps - the wsgi.* keys as a dict literal, then the CGI'},
+ {'edits': [('serving.py',
+             '        for key, value in self.headers.items():\n'
+             '            if "_" in key:\n'
+             '                continue\n'
+             '\n'
+             '            key = key.upper().replace("-", "_")\n'
+             '            value = value.replace("\\r\\n", "")\n'
+             '            if key not in ("CONTENT_TYPE", "CONTENT_LENGTH"):\n'
+             '                key = f"HTTP_{key}"\n'
+             '                if key in environ:\n'
+             '                    value = f"{environ[key]},{value}"\n'
+             '            environ[key] = value\n'
+             '\n',
+             '        for key, value in self.headers.items():\n'
+             '            if "_" not in key:\n'
+             '                key = key.upper().replace("-", "_")\n'
+             '                value = value.replace("\\r\\n", "")\n'
+             '\n'
+             '                if key in ("CONTENT_TYPE", "CONTENT_LENGTH"):\n'
+             '                    # These two are passed without the HTTP_ prefix, and the\n'
+             '                    # last one wins.\n'
+             '                    environ[key] = value\n'
+             '                else:\n'
+             '                    key = f"HTTP_{key}"\n'
+             '\n'
+             '                    if key not in environ:\n'
+             '                        environ[key] = value\n'
+             '                    else:\n'
+             '                        environ[key] = f"{environ[key]},{value}"\n'
+             '\n')],
+  'name': 'det3-p10-make_environ: header loop without continue - flip the underscore test and the CONTENT_TYPE'},
+ {'edits': [('serving.py',
+             '\n'
+             '        for key, value in self.headers.items():\n'
+             '            if "_" in key:\n'
+             '                continue\n'
+             '\n'
+             '            key = key.upper().replace("-", "_")\n'
+             '            value = value.replace("\\r\\n", "")\n'
+             '            if key not in ("CONTENT_TYPE", "CONTENT_LENGTH"):\n'
+             '                key = f"HTTP_{key}"\n'
+             '                if key in environ:\n'
+             '                    value = f"{environ[key]},{value}"\n'
+             '            environ[key] = value\n'
+             '\n',
+             '\n'
+             '        # Header names containing an underscore are dropped, they would be\n'
+             '        # indistinguishable from the dashed spelling.\n'
+             '        cgi_headers = [\n'
+             '            (name.upper().replace("-", "_"), field.replace("\\r\\n", ""))\n'
+             '            for name, field in self.headers.items()\n'
+             '            if "_" not in name\n'
+             '        ]\n'
+             '\n'
+             '        for name, field in cgi_headers:\n'
+             '            if name not in ("CONTENT_TYPE", "CONTENT_LENGTH"):\n'
+             '                name = f"HTTP_{name}"\n'
+             '                if name in environ:\n'
+             '                    field = f"{environ[name]},{field}"\n'
+             '            environ[name] = field\n'
+             '\n')],
+  'name': 'det3-p11-make_environ: rename loop locals (key/value -> name/field) and normalise/filter the header'},
+ {'edits': [('serving.py',
+             '                key = f"HTTP_{key}"\n'
+             '                if key in environ:\n'
+             '                    value = f"{environ[key]},{value}"\n'
+             '            environ[key] = value\n',
+             '                key = f"HTTP_{key}"\n'
+             '                try:\n'
+             '                    value = f"{environ[key]},{value}"\n'
+             '                except KeyError:\n'
+             '                    # First occurrence of this header.\n'
+             '                    pass\n'
+             '            environ[key] = value\n'),
+            ('serving.py',
+             '        # We\'re using "has a scheme" to indicate an absolute URL.\n'
+             '        if request_url.scheme and request_url.netloc:\n'
+             '            environ["HTTP_HOST"] = request_url.netloc\n'
+             '\n',
+             '        # We\'re using "has a scheme" to indicate an absolute URL.\n'
+             '        target_host = request_url.netloc if request_url.scheme else ""\n'
+             '\n'
+             '        if target_host:\n'
+             '            environ.update(HTTP_HOST=target_host)\n'
+             '\n')],
+  'name': 'det3-p12-make_environ: repeated-header pre-check (key in environ) replaced by try/except KeyError; '},
+ {'edits': [('serving.py',
+             '        read = 0\n        while not self._done and read < len(buf):\n            if self._len == 0:\n',
+             '        read = 0\n'
+             '        # The buffer is filled in place and never resized.\n'
+             '        size = len(buf)\n'
+             '\n'
+             '        while not (self._done or read >= size):\n'
+             '            if self._len == 0:\n'),
+            ('serving.py',
+             '                # reset self._len to 0.\n                n = min(len(buf), self._len)\n\n',
+             '                # reset self._len to 0.\n                n = min(size, self._len)\n\n'),
+            ('serving.py',
+             '                # required. So only read as much data as can fit in buf.\n'
+             '                if read + n > len(buf):\n'
+             '                    n = len(buf) - read\n'
+             '\n',
+             '                # required. So only read as much data as can fit in buf.\n'
+             '                if read + n > size:\n'
+             '                    n = size - read\n'
+             '\n')],
+  'name': 'det3-p13-DechunkedInput.readinto: hoist size = len(buf) into a local and rewrite the loop condition'},
+ {'edits': [('serving.py',
+             '        read = 0\n        while not self._done and read < len(buf):\n            if self._len == 0:\n',
+             '        read = 0\n        while read < len(buf):\n            if self._done:\n                break\n\n            if self._len == 0:\n'),
+            ('serving.py',
+             '\n'
+             '            if self._len == 0:\n'
+             '                # Found the final chunk of size 0. The stream is now exhausted,\n'
+             '                # but there is still a final newline that should be consumed\n'
+             '                self._done = True\n'
+             '\n',
+             '\n'
+             '                if self._len == 0:\n'
+             '                    # Found the final chunk of size 0. The stream is now\n'
+             '                    # exhausted, but there is still a final newline that\n'
+             '                    # should be consumed\n'
+             '                    self._done = True\n'
+             '\n')],
+  'name': "det3-p14-DechunkedInput.readinto: split the loop condition (while read < len(buf), with 'if self._d"},
+ {'edits': [('serving.py',
+             '\n'
+             '    def readinto(self, buf: bytearray) -> int:  # type: ignore\n'
+             '        read = 0\n'
+             '        while not self._done and read < len(buf):\n'
+             '            if self._len == 0:\n',
+             '\n'
+             '    def _skip_chunk_terminator(self) -> None:\n'
+             '        terminator = self._rfile.readline()\n'
+             '        if terminator not in (b"\\n", b"\\r\\n", b"\\r"):\n'
+             '            raise OSError("Missing chunk terminating newline")\n'
+             '\n'
+             '    def readinto(self, buf: bytearray) -> int:  # type: ignore\n'
+             '        if self._done:\n'
+             '            # The final chunk was already seen by an earlier call.\n'
+             '            return 0\n'
+             '\n'
+             '        read = 0\n'
+             '        while read < len(buf):\n'
+             '            if self._len == 0:\n'),
+            ('serving.py',
+             '                # consumed. This also applies to the 0-sized final chunk\n'
+             '                terminator = self._rfile.readline()\n'
+             '                if terminator not in (b"\\n", b"\\r\\n", b"\\r"):\n'
+             '                    raise OSError("Missing chunk terminating newline")\n'
+             '\n',
+             '                # consumed. This also applies to the 0-sized final chunk\n'
+             '                self._skip_chunk_terminator()\n'
+             '\n'
+             '            if self._done:\n'
+             '                break\n'
+             '\n')],
+  'name': "det3-p15-DechunkedInput.readinto: early 'if self._done: return 0' guard, loop on read < len(buf) on"}]
+
+
+def _det3_mut(name, expect, twin, old, new):
+    tw = next(t_ for t_ in _DET3_TWINS if t_["name"].startswith(twin))
+    assert sum(n_.count(old) for _, _, n_ in tw["edits"]) == 1, (name, old)
+    return {"name": name, "expect": expect, "edits": [(f_, o_, n_.replace(old, new)) for f_, o_, n_ in tw["edits"]]}
+
+
+TWINS += _DET3_TWINS
+_D3_SET = '            environ["HTTP_HOST"] = request_url.netloc\n'
+_D3_SETDEFAULT = '        if request_url.scheme and request_url.netloc:\n            environ.setdefault("HTTP_HOST", request_url.netloc)\n'
+_D3_WHILE = "        while not self._done and read < len(buf):\n"
+
+
+def _det3_mut2(name, expect, twin, *extra):
+    tw = next(t_ for t_ in _DET3_TWINS if t_["name"].startswith(twin))
+    return {"name": name, "expect": expect, "edits": list(tw["edits"]) + list(extra)}
+
+
+MUTANTS += [
+    # the end flag is a latch (R19.3): the original shape and the three fresh shapes of the loop
+    {"name": "d3-latch-while-forgets-the-end-flag", "expect": "R19.3", "edits": [(S, _D3_WHILE, "        while read < len(buf):\n")]},
+    {"name": "d3-latch-flag-tested-only-with-data-read", "expect": "R19.3", "edits": [(S, _D3_WHILE, "        while not (self._done and read) and read < len(buf):\n")]},
+    {"name": "d3-latch-flag-tested-after-the-header-read", "expect": "R19.3", "edits": [(S, _D3_WHILE, "        while read < len(buf):\n"), (S, "                self._len = self.read_chunk_len()\n\n", "                self._len = self.read_chunk_len()\n\n            if self._done:\n                break\n\n")]},
+    _det3_mut("det3-p13-de-morgan-loop-forgets-the-end-flag", "R19.3", "det3-p13-", "while not (self._done or read >= size):", "while not (read >= size):"),
+    _det3_mut("det3-p14-break-on-end-flag-removed", "R19.3", "det3-p14-", "            if self._done:\n                break\n", "            if self._done and read:\n                break\n"),
+    _det3_mut("det3-p15-no-guard-for-a-later-call", "R19.3", "det3-p15-", "        if self._done:\n            # The final chunk was already seen by an earlier call.\n            return 0\n", "        if self._done and not buf:\n            # The final chunk was already seen by an earlier call.\n            return 0\n"),
+    # R19.6 in the fresh shapes
+    _det3_mut("det3-p1-flag-local-then-setdefault", "R19.6", "det3-p1-", "        if is_absolute:\n", "        if is_absolute and \"HTTP_HOST\" not in environ:\n"),
+    _det3_mut("det3-p2-unpacked-netloc-alone-overrides", "R19.6", "det3-p2-", "        if scheme and netloc:\n", "        if netloc:\n"),
+    _det3_mut2("det3-p3-header-dict-merged-over-a-default-host", "R19.6", "det3-p3-", (S, _D3_HOST, _D3_SETDEFAULT)),
+    _det3_mut("det3-p4-conditional-host-only-fills-in", "R19.6", "det3-p4-", '            environ["HTTP_HOST"] = host\n', '            environ.setdefault("HTTP_HOST", host)\n'),
+    _det3_mut("det3-p5-module-constant-key-setdefault", "R19.6", "det3-p5-", "                environ[HOST_KEY] = request_url.netloc\n", "                environ.setdefault(HOST_KEY, request_url.netloc)\n"),
+    _det3_mut("det3-p6-override-after-try-keeps-client-host", "R19.6", "det3-p6-", '        if request_url.scheme and request_url.netloc:\n            environ["HTTP_HOST"] = request_url.netloc\n', '        if request_url.scheme and request_url.netloc:\n            environ["HTTP_HOST"] = environ.get("HTTP_HOST", request_url.netloc)\n'),
+    _det3_mut2("det3-p7-host-stored-before-the-header-method", "R19.6", "det3-p7-", (S, _D3_HOST, ""), (S, "        self._add_request_headers(environ)\n", _D3_HOST + "        self._add_request_headers(environ)\n")),
+    _det3_mut("det3-p8-module-helper-yields-to-host-header", "R19.6", "det3-p8-", "    if not scheme or not netloc:\n", "    if not scheme or not netloc or \"HTTP_HOST\" in environ:\n"),
+    _det3_mut2("det3-p9-continued-literal-uppercases-method", "R19.4", "det3-p9-", (S, '            "REQUEST_METHOD": self.command,\n', '            "REQUEST_METHOD": self.command.upper(),\n')),
+    _det3_mut("det3-p10-branching-loop-drops-repeated-header", "R19.4", "det3-p10-", '                        environ[key] = f"{environ[key]},{value}"\n', "                        pass\n"),
+    _det3_mut("det3-p11-comprehension-keeps-underscore-names", "R19.4", "det3-p11-", '            if "_" not in name\n', ""),
+    _det3_mut("det3-p12-keyerror-join-reversed", "R19.4", "det3-p12-", 'value = f"{environ[key]},{value}"', 'value = f"{value},{environ[key]}"'),
+    _det3_mut("det3-p12-host-from-scheme-only", "R19.6", "det3-p12-", 'target_host = request_url.netloc if request_url.scheme else ""', 'target_host = request_url.netloc or request_url.scheme'),
+]
+
+_D3_RI = "    def readinto(self, buf: bytearray) -> int:  # type: ignore\n"
+_D3_LATCH_TWINS = [
+    {"name": "d3-latch-predicate-method-with-arguments", "edits": [(S, _D3_WHILE, "        while self._more(read, buf):\n"), (S, _D3_RI, "    def _more(self, read, buf) -> bool:\n        return not self._done and read < len(buf)\n\n" + _D3_RI)]},
+    {"name": "d3-latch-predicate-method-no-arguments", "edits": [(S, _D3_WHILE, "        while not self._finished() and read < len(buf):\n"), (S, _D3_RI, "    def _finished(self) -> bool:\n        return self._done\n\n" + _D3_RI)]},
+    {"name": "d3-latch-property", "edits": [(S, _D3_WHILE, "        while not self.finished and read < len(buf):\n"), (S, _D3_RI, "    @property\n    def finished(self) -> bool:\n        return self._done\n\n" + _D3_RI)]},
+    {"name": "d3-latch-local-copy", "edits": [(S, _D3_WHILE, "        done = self._done\n        while not done and read < len(buf):\n"), (S, "                self._done = True\n", "                self._done = done = True\n")]},
+    {"name": "d3-latch-is-false", "edits": [(S, _D3_WHILE, "        while self._done is False and read < len(buf):\n")]},
+    {"name": "d3-latch-while-true-break", "edits": [(S, _D3_WHILE, "        while True:\n            if self._done or read >= len(buf):\n                break\n")]},
+]
+TWINS += _D3_LATCH_TWINS
+MUTANTS += [
+    {"name": "d3-latch-while-true-break-forgets-the-flag", "expect": "R19.3", "edits": [(S, _D3_WHILE, "        while True:\n            if read >= len(buf):\n                break\n")]},
+    {"name": "d3-latch-predicate-method-forgets-the-flag", "expect": "R19.3", "edits": [(S, _D3_WHILE, "        while not self._finished() and read < len(buf):\n"), (S, _D3_RI, "    def _finished(self) -> bool:\n        return self._done and self._len > 0\n\n" + _D3_RI)]},
+]
+
+# further own variants of the Host override (walrus, get-then-override, other spellings of the absolute-form test, header dict)
+_D3_HLOOP = '''        for key, value in self.headers.items():
+            if "_" in key:
+                continue
+
+            key = key.upper().replace("-", "_")
+            value = value.replace("\\r\\n", "")
+            if key not in ("CONTENT_TYPE", "CONTENT_LENGTH"):
+                key = f"HTTP_{key}"
+                if key in environ:
+                    value = f"{environ[key]},{value}"
+            environ[key] = value
+'''
+_D3_HD = '''        received: dict[str, str] = {}
+        for key, value in self.headers.items():
+            if "_" in key:
+                continue
+
+            key = key.upper().replace("-", "_")
+            value = value.replace("\\r\\n", "")
+            if key not in ("CONTENT_TYPE", "CONTENT_LENGTH"):
+                key = f"HTTP_{key}"
+                if key in received:
+                    value = f"{received[key]},{value}"
+            received[key] = value
+'''
+_D3_OWN2 = [
+ _d3t("d3-t-hd-host-into-dict", (S, _D3_HLOOP, _D3_HD + '        if request_url.scheme and request_url.netloc:\n            received["HTTP_HOST"] = request_url.netloc\n        environ.update(received)\n'), (S, _D3_HOST, '')),
+ _d3m("d3-m-hd-merge-after-host", (S, _D3_HLOOP, _D3_HD), (S, _D3_HOST, _D3_HOST + '        environ.update(received)\n')),
+ _d3m("d3-m-hd-setdefault-into-dict", (S, _D3_HLOOP, _D3_HD + '        if request_url.scheme and request_url.netloc:\n            received.setdefault("HTTP_HOST", request_url.netloc)\n        environ.update(received)\n'), (S, _D3_HOST, '')),
+ _d3t("d3-t-walrus", (S, _D3_HOST, '        if request_url.scheme and (authority := request_url.netloc):\n            environ["HTTP_HOST"] = authority\n')),
+ _d3t("d3-t-get-then-override", (S, _D3_HOST, '        host = environ.get("HTTP_HOST")\n        if request_url.scheme and request_url.netloc:\n            host = request_url.netloc\n        if host is not None:\n            environ["HTTP_HOST"] = host\n')),
+ _d3t("d3-t-compare-empty", (S, _D3_HOST, '        if request_url.scheme != "" and request_url.netloc != "":\n            environ["HTTP_HOST"] = request_url.netloc\n')),
+ _d3t("d3-t-all", (S, _D3_HOST, '        if all((request_url.scheme, request_url.netloc)):\n            environ["HTTP_HOST"] = request_url.netloc\n')),
+ _d3t("d3-t-len", (S, _D3_HOST, '        if len(request_url.scheme) > 0 and len(request_url.netloc) > 0:\n            environ["HTTP_HOST"] = request_url.netloc\n')),
+ _d3t("d3-t-index", (S, _D3_HOST, '        if request_url[0] and request_url[1]:\n            environ["HTTP_HOST"] = request_url[1]\n')),
+ _d3t("d3-t-resplit", (S, _D3_HOST, '        target = urlsplit(self.path)\n        if target.scheme and target.netloc:\n            environ["HTTP_HOST"] = target.netloc\n')),
+ _d3t("d3-t-del-then-set", (S, _D3_HOST, '        if request_url.scheme and request_url.netloc:\n            if "HTTP_HOST" in environ:\n                del environ["HTTP_HOST"]\n            environ["HTTP_HOST"] = request_url.netloc\n')),
+ _d3m("d3-m-get-default", (S, _D3_HOST, '        if request_url.scheme and request_url.netloc:\n            environ["HTTP_HOST"] = environ.get("HTTP_HOST", request_url.netloc)\n')),
+ _d3m("d3-m-if-not-get", (S, _D3_HOST, '        if request_url.scheme and request_url.netloc and not environ.get("HTTP_HOST"):\n            environ["HTTP_HOST"] = request_url.netloc\n')),
+ _d3m("d3-m-only-https", (S, _D3_HOST, '        if request_url.scheme == "https" and request_url.netloc:\n            environ["HTTP_HOST"] = request_url.netloc\n')),
+]
+
+# storing the authority into the local header dict before the merge is outside what the header-dict clause of R19.4 models (analysis error): not listed
+_D3_OWN2 = [v_ for v_ in _D3_OWN2 if v_["name"] not in ("d3-t-hd-host-into-dict", "d3-m-hd-setdefault-into-dict")]
+MUTANTS += [v_ for v_ in _D3_OWN2 if "expect" in v_]
+TWINS += [v_ for v_ in _D3_OWN2 if "expect" not in v_]
+_DET3_TWINS_Q = [{'edits': [('serving.py',
+             '        # netloc, prepend it to the path again.\n'
+             '        if not request_url.scheme and request_url.netloc:\n'
+             '            path_info = f"/{request_url.netloc}{request_url.path}"\n'
+             '        else:\n'
+             '            path_info = request_url.path\n'
+             '\n',
+             '        # netloc, prepend it to the path again.\n'
+             '        netloc = request_url.netloc\n'
+             '        host_override: str | None = None\n'
+             '\n'
+             '        if not netloc:\n'
+             '            path_info = request_url.path\n'
+             '        elif request_url.scheme:\n'
+             '            # Absolute URL, its authority replaces the Host header below.\n'
+             '            path_info = request_url.path\n'
+             '            host_override = netloc\n'
+             '        else:\n'
+             '            path_info = f"/{netloc}{request_url.path}"\n'
+             '\n'),
+            ('serving.py',
+             '        # We\'re using "has a scheme" to indicate an absolute URL.\n'
+             '        if request_url.scheme and request_url.netloc:\n'
+             '            environ["HTTP_HOST"] = request_url.netloc\n'
+             '\n',
+             '        # We\'re using "has a scheme" to indicate an absolute URL.\n'
+             '        if host_override is not None:\n'
+             '            environ["HTTP_HOST"] = host_override\n'
+             '\n')],
+  'name': 'det3-q1-one if/elif/else on (netloc, scheme) decides path_info and a deferred host_override local '},
+ {'edits': [('serving.py',
+             '\n    def make_environ(self) -> WSGIEnvironment:\n',
+             '\n'
+             '    @staticmethod\n'
+             '    def _absolute_authority(request_url: t.Any) -> str | None:\n'
+             '        """The authority of an absolute-form request target, otherwise\n'
+             '        ``None``. "Has a scheme" indicates an absolute URL.\n'
+             '        """\n'
+             '        if not request_url.scheme:\n'
+             '            return None\n'
+             '\n'
+             '        return request_url.netloc or None\n'
+             '\n'
+             '    def make_environ(self) -> WSGIEnvironment:\n'),
+            ('serving.py',
+             '        # We\'re using "has a scheme" to indicate an absolute URL.\n'
+             '        if request_url.scheme and request_url.netloc:\n'
+             '            environ["HTTP_HOST"] = request_url.netloc\n'
+             '\n',
+             '        # We\'re using "has a scheme" to indicate an absolute URL.\n'
+             '        if (authority := self._absolute_authority(request_url)) is not None:\n'
+             '            environ["HTTP_HOST"] = authority\n'
+             '\n')],
+  'name': 'det3-q2-private staticmethod _absolute_authority(url) returning netloc or None, tested with a walr'},
+ {'edits': [('serving.py',
+             '        # We\'re using "has a scheme" to indicate an absolute URL.\n'
+             '        if request_url.scheme and request_url.netloc:\n'
+             '            environ["HTTP_HOST"] = request_url.netloc\n'
+             '\n',
+             '        # We\'re using "has a scheme" to indicate an absolute URL.\n'
+             '        scheme, netloc = request_url.scheme, request_url.netloc\n'
+             '\n'
+             '        if scheme != "" and netloc != "":\n'
+             '            environ["HTTP_HOST"] = netloc\n'
+             '\n')],
+  'name': 'det3-q4-tuple assignment of scheme/netloc just before the override and != "" spelling of both test'},
+ {'edits': [('serving.py',
+             '\n        path_info = unquote(path_info)\n',
+             '\n        authority = request_url.netloc if request_url.scheme else None\n\n        path_info = unquote(path_info)\n'),
+            ('serving.py',
+             '        # We\'re using "has a scheme" to indicate an absolute URL.\n'
+             '        if request_url.scheme and request_url.netloc:\n'
+             '            environ["HTTP_HOST"] = request_url.netloc\n'
+             '\n',
+             '        # We\'re using "has a scheme" to indicate an absolute URL.\n        if authority:\n            environ["HTTP_HOST"] = authority\n\n')],
+  'name': 'det3-q5-authority = netloc if scheme else None computed next to path_info, truthiness test at the '},
+ {'edits': [('serving.py',
+             '                if key in environ:\n                    value = f"{environ[key]},{value}"\n            environ[key] = value\n',
+             '                if key in environ:\n                    value = ",".join((environ[key], value))\n            environ[key] = value\n'),
+            ('serving.py',
+             '        # We\'re using "has a scheme" to indicate an absolute URL.\n'
+             '        if request_url.scheme and request_url.netloc:\n'
+             '            environ["HTTP_HOST"] = request_url.netloc\n'
+             '\n',
+             '        # We\'re using "has a scheme" to indicate an absolute URL.\n'
+             '        if request_url.scheme and (netloc := request_url.netloc):\n'
+             '            environ["HTTP_HOST"] = netloc\n'
+             '\n')],
+  'name': 'det3-q7-walrus binding of netloc inside the override condition; header join written with str.join'},
+ {'edits': [('serving.py',
+             '        read = 0\n        while not self._done and read < len(buf):\n            if self._len == 0:\n',
+             '        read = 0\n'
+             '        rfile = self._rfile\n'
+             '\n'
+             '        while True:\n'
+             '            if self._done:\n'
+             '                break\n'
+             '\n'
+             '            if read >= len(buf):\n'
+             '                break\n'
+             '\n'
+             '            if self._len == 0:\n'),
+            ('serving.py', '\n                data = self._rfile.read(n)\n\n', '\n                data = rfile.read(n)\n\n'),
+            ('serving.py',
+             '                # consumed. This also applies to the 0-sized final chunk\n'
+             '                terminator = self._rfile.readline()\n'
+             '                if terminator not in (b"\\n", b"\\r\\n", b"\\r"):\n',
+             '                # consumed. This also applies to the 0-sized final chunk\n'
+             '                terminator = rfile.readline()\n'
+             '                if terminator not in (b"\\n", b"\\r\\n", b"\\r"):\n')],
+  'name': 'det3-q8-readinto: while True with two explicit breaks (done flag, buffer full) and a local alias f'},
+ {'edits': [('serving.py',
+             '\n    def read_chunk_len(self) -> int:\n',
+             '\n'
+             '    @property\n'
+             '    def exhausted(self) -> bool:\n'
+             '        """Whether the final zero-sized chunk has been seen."""\n'
+             '        return self._done\n'
+             '\n'
+             '    def read_chunk_len(self) -> int:\n'),
+            ('serving.py',
+             '        read = 0\n        while not self._done and read < len(buf):\n            if self._len == 0:\n',
+             '        read = 0\n        while not self.exhausted and read < len(buf):\n            if self._len == 0:\n')],
+  'name': 'det3-q9-readinto: _done tested through a read-only property `exhausted`'}]
+
+
+def _det3_mut_q(name, expect, twin, old, new):
+    tw = next(t_ for t_ in _DET3_TWINS_Q if t_["name"].startswith(twin))
+    assert sum(n_.count(old) for _, _, n_ in tw["edits"]) == 1, (name, old)
+    return {"name": name, "expect": expect, "edits": [(f_, o_, n_.replace(old, new)) for f_, o_, n_ in tw["edits"]]}
+
+
+TWINS += _DET3_TWINS_Q
+MUTANTS += [
+    _det3_mut_q("det3-q1-deferred-host-only-fills-in", "R19.6", "det3-q1-", '            environ["HTTP_HOST"] = host_override\n', '            environ.setdefault("HTTP_HOST", host_override)\n'),
+    _det3_mut_q("det3-q1-deferred-host-for-slash-slash-path", "R19.6", "det3-q1-", "            path_info = f\"/{netloc}{request_url.path}\"\n", "            path_info = f\"/{netloc}{request_url.path}\"\n            host_override = netloc\n"),
+    _det3_mut_q("det3-q2-static-helper-ignores-scheme", "R19.6", "det3-q2-", "        if not request_url.scheme:\n            return None\n", "        if not request_url.netloc:\n            return None\n"),
+    _det3_mut_q("det3-q2-static-helper-result-only-fills-in", "R19.6", "det3-q2-", '            environ["HTTP_HOST"] = authority\n', '            environ["HTTP_HOST"] = environ.get("HTTP_HOST", authority)\n'),
+    _det3_mut_q("det3-q5-authority-local-without-scheme-test", "R19.6", "det3-q5-", "authority = request_url.netloc if request_url.scheme else None", "authority = request_url.netloc or None"),
+    _det3_mut_q("det3-q7-walrus-host-not-in-guard", "R19.6", "det3-q7-", "        if request_url.scheme and (netloc := request_url.netloc):\n", "        if request_url.scheme and (netloc := request_url.netloc) and \"HTTP_HOST\" not in environ:\n"),
+    _det3_mut_q("det3-q8-stream-alias-loop-forgets-the-end-flag", "R19.3", "det3-q8-", "            if self._done:\n                break\n", "            if self._done and read:\n                break\n"),
+    _det3_mut_q("det3-q9-property-flag-dropped-from-loop", "R19.3", "det3-q9-", "while not self.exhausted and read < len(buf)", "while read < len(buf)"),
+]
